@@ -20,6 +20,7 @@ type emission struct {
 	e    h.Ev
 	at   int64  // virtual ns when the producer issued it
 	tick uint64 // logical time
+	done uint64 // logical time at which the producer's call returned (0: it has not)
 }
 
 type c16log struct {
@@ -31,7 +32,16 @@ type c16log struct {
 }
 
 //go:norace
-func (l *c16log) emit(e h.Ev) { l.ems = append(l.ems, emission{e, vrt.NowNS(), vrt.Tick()}) }
+func (l *c16log) emit(e h.Ev) {
+	l.ems = append(l.ems, emission{e: e, at: vrt.NowNS(), tick: vrt.Tick()})
+}
+
+//go:norace
+func (l *c16log) returned() {
+	if n := len(l.ems); n > 0 {
+		l.ems[n-1].done = vrt.Tick()
+	}
+}
 
 //go:norace
 func (l *c16log) lastEmissionAt() int64 {
@@ -105,6 +115,19 @@ func subsequenceOf(vals []interface{}, src []interface{}) bool {
 		j++
 	}
 	return true
+}
+
+// emAt is the instant at which the producer issued value v (values are distinct within a timeline); -1 if
+// it never did. An operator sees the value somewhere between that instant and the delivery downstream: with
+// a clock deviation the producer or the operator is descheduled in between, so instants the operator reads
+// itself (time.Now) are only known to lie in [emission, delivery].
+func emAt(l *c16log, v interface{}) int64 {
+	for _, em := range l.ems {
+		if em.e.K == h.N && fmt.Sprint(em.e.V) == fmt.Sprint(v) {
+			return em.at
+		}
+	}
+	return -1
 }
 
 func srcValues(l *c16log) []interface{} {
@@ -230,23 +253,36 @@ func c16Ops() []timedOp {
 					// value that arrives at the very instant T, after the timer fired and before its goroutine
 					// delivered the error, does not shorten the quiet period that ended at T).
 					T := en.T
-					lastActivity := l.subAt
 					for _, em := range l.ems {
-						if em.at <= T && em.tick < en.In && em.e.K != h.N {
+						// the source's terminal had gone through the operator (the producer's call had returned)
+						// before the error was delivered
+						if em.e.K != h.N && em.done != 0 && em.done < en.In {
 							add("timeout-after-source-terminated", "late", fmt.Sprintf("timeout error at %s although the source had already terminated at %s", ms(T), ms(em.at)))
 							return
 						}
 					}
+					// The timer fired at some instant F <= T after a full quiet period (F, the error may be
+					// delivered later: the observer was busy). F is not observable; the error is justified if SOME
+					// gap of at least p separates two consecutive activities (subscription, values going through,
+					// in order) before T, T itself closing the last gap.
+					acts := []int64{l.subAt}
 					for _, prev := range out {
 						if prev.In >= en.In {
 							break
 						}
-						if prev.K == h.N && prev.T > lastActivity && prev.T < T {
-							lastActivity = prev.T
+						if prev.K == h.N && prev.T < T {
+							acts = append(acts, prev.T)
 						}
 					}
-					if T-lastActivity < int64(p) {
-						add("emitted-early", "timeout", fmt.Sprintf("error %q at %s but a value went through at %s: quiet for less than %s", en.Err.Error(), ms(T), ms(lastActivity), ms(int64(p))))
+					acts = append(acts, T)
+					quiet := false
+					for i := 1; i < len(acts); i++ {
+						if acts[i]-acts[i-1] >= int64(p) {
+							quiet = true
+						}
+					}
+					if !quiet {
+						add("emitted-early", "timeout", fmt.Sprintf("error %q at %s: no quiet period of %s between the activities at %v", en.Err.Error(), ms(T), ms(int64(p)), actsString(acts)))
 					}
 				}
 				if !subsequenceOf(vals, srcValues(l)) {
@@ -259,6 +295,8 @@ func c16Ops() []timedOp {
 			},
 			check: func(l *c16log, out []h.Entry, add func(clause, cls, detail string)) {
 				var vals []interface{}
+				// the operator compares the instants at which it SAW two values; it saw the earlier one not before
+				// its emission and the later one not after its delivery
 				last := int64(-1 << 62)
 				for _, en := range out {
 					if en.K != h.N {
@@ -266,10 +304,14 @@ func c16Ops() []timedOp {
 					}
 					vals = append(vals, en.V)
 					if en.T-last < int64(p) {
-						add("more-than-one-per-window", "throttle", fmt.Sprintf("two values let through %s apart (window %s)", ms(en.T-last), ms(int64(p))))
+						add("more-than-one-per-window", "throttle", fmt.Sprintf("two values let through although the later was delivered only %s after the earlier was emitted (window %s)", ms(en.T-last), ms(int64(p))))
 						return
 					}
-					last = en.T
+					if at := emAt(l, en.V); at >= 0 {
+						last = at
+					} else {
+						last = en.T
+					}
 				}
 				if !subsequenceOf(vals, srcValues(l)) {
 					add("not-a-subsequence", "values", fmt.Sprintf("delivered %v from source %v", vals, srcValues(l)))
@@ -408,8 +450,9 @@ func c16Ops() []timedOp {
 					continue
 				}
 				tv := en.V.(ro.TimestampValue[int])
-				if want := time.Duration(en.T - l.subAt); tv.Timestamp != want {
-					add("timestamp-wrong", "value", fmt.Sprintf("value %d stamped %v, delivered %v after subscription", tv.Value, tv.Timestamp, want))
+				lo, hi := time.Duration(emAt(l, tv.Value)-l.subAt), time.Duration(en.T-l.subAt)
+				if tv.Timestamp < lo || tv.Timestamp > hi {
+					add("timestamp-wrong", "value", fmt.Sprintf("value %d stamped %v, emitted %v and delivered %v after subscription", tv.Value, tv.Timestamp, lo, hi))
 					return
 				}
 				if tv.Timestamp < prev {
@@ -423,20 +466,36 @@ func c16Ops() []timedOp {
 			return subTyped(ro.TimeInterval[int]()(src))
 		},
 		check: func(l *c16log, out []h.Entry, add func(clause, cls, detail string)) {
-			prev := l.subAt
+			// interval k = (instant the operator saw value k) - (instant it saw value k-1, or subscribed); each
+			// of those instants lies between emission and delivery
+			prevLo, prevHi := l.subAt, int64(-1) // prevHi -1: unknown upper bound for the subscription instant
 			for _, en := range out {
 				if en.K != h.N {
 					continue
 				}
 				iv := en.V.(ro.IntervalValue[int])
-				if want := time.Duration(en.T - prev); iv.Interval != want {
-					add("interval-wrong", "value", fmt.Sprintf("value %d has interval %v, %v elapsed since the previous one", iv.Value, iv.Interval, want))
+				at := emAt(l, iv.Value)
+				lo := int64(0)
+				if prevHi >= 0 && at-prevHi > 0 {
+					lo = at - prevHi
+				}
+				hi := en.T - prevLo
+				if int64(iv.Interval) < lo || int64(iv.Interval) > hi {
+					add("interval-wrong", "value", fmt.Sprintf("value %d has interval %v; the time since the previous one lies between %v and %v", iv.Value, iv.Interval, time.Duration(lo), time.Duration(hi)))
 					return
 				}
-				prev = en.T
+				prevLo, prevHi = at, en.T
 			}
 		}})
 	return ops
+}
+
+func actsString(a []int64) string {
+	var p []string
+	for _, t := range a {
+		p = append(p, ms(t))
+	}
+	return strings.Join(p, ", ")
 }
 
 func lastT(out []h.Entry) int64 {
@@ -535,6 +594,7 @@ func c16CaseSlow(op timedOp, tl []tlItem, cutAt time.Duration, bound int, slow t
 						vrt.HSleep(int64(it.gap))
 						l.emit(it.e)
 						push.Emit(it.e)
+						l.returned()
 					}
 				})
 			}
@@ -579,8 +639,11 @@ func c16CaseSlow(op timedOp, tl []tlItem, cutAt time.Duration, bound int, slow t
 						break
 					}
 				}
-				if r.TimersLeft > 0 {
-					add("timer-left-armed", "after-unsubscribe", fmt.Sprintf("%d timers of the library are still armed after Unsubscribe returned", r.TimersLeft))
+				// a one-shot timer that is still pending can at most fire into a closed subscriber (silence is
+				// what the property asks for, and the clause above checks it); a ticker that nobody stopped keeps
+				// firing for ever
+				if r.TickersLeft > 0 {
+					add("timer-left-armed", "after-unsubscribe", fmt.Sprintf("%d periodic timers of the library are still running after Unsubscribe returned", r.TickersLeft))
 				}
 				for _, b := range r.Blocked {
 					if b.Name != "producer" && b.Name != "main" && b.Name != "subscribe" {
